@@ -8,7 +8,8 @@
    the same of code generated with keep_unknown_fields; norm = a value after one Write + Read. *)
 From Coq Require Import List ZArith Bool Lia.
 From Verif Require Import Base.Bytes Base.BE Wire.TType Wire.WVal Wire.Codec Wire.Schema Wire.Value Wire.Std Wire.StdFacts
-  Wire.Unknown Wire.UnknownCodecFacts Wire.UnknownEvoFacts Wire.UnknownReadFacts Wire.UnknownFacts.
+  Wire.Unknown Wire.UnknownDomain Wire.UnknownCodecFacts Wire.UnknownEvoFacts Wire.UnknownReadFacts Wire.UnknownFacts
+  Wire.UnknownWriteFacts.
 Import ListNotations.
 Open Scope Z_scope.
 
@@ -87,7 +88,8 @@ Print Assumptions C09_unknown_append_limit.
        read_new n sn (to_wire_keep o so (read_new_keep o so (to_wire n sn v))) = Ok (norm_struct n sn v)
    for every well-typed v.  The unchanged code does not satisfy it: the old code's Write can refuse
    (C09_keep_roundtrip_refuted below: a union whose only set member is unknown to the old code).
-   Proved: whenever the old code's Write does not refuse, the bytes decode under the new schema to the
+   Proved: whenever the old code's Write does not refuse — which is decided by keep_accepts o n so sn v,
+   see C09_keep_write_iff / C09_keep_roundtrip_total below — the bytes decode under the new schema to the
    value — for every pair of programs related by extendsb and every value in the domain
        opt_init_unset o   no optional field of the old program is "set" in a fresh NewX() object
                           (an optional field with a container default would be written by the old
@@ -125,6 +127,53 @@ Theorem C09_keep_roundtrip_refuted :
     to_wire_keep o so x = KErr (KStd (EUnionCount 0)).
 Proof. exact keep_union_refuted. Qed.
 Print Assumptions C09_keep_roundtrip_refuted.
+
+(* ---- when does the old code's Write accept what it read?  (Wire/UnknownDomain.v)
+   writable e t x: everywhere inside x, every union has exactly one DECLARED member set (members kept
+   in the unknown buffer do not count) and no set has two elements that reflect.DeepEqual makes equal;
+   slots Write does not emit are not looked at.  These are the two data-dependent refusals of X.Write. ---- *)
+
+(* Write succeeds only on writable objects (any object, any schema) *)
+Theorem C09_write_ok_writable : forall e x t w', to_wk e t x = KOk w' -> writable e t x = true.
+Proof. exact write_ok_writable. Qed.
+Print Assumptions C09_write_ok_writable.
+
+(* the classification: for the object the old code holds after reading what the new code wrote, Write
+   succeeds EXACTLY when the object is writable *)
+Theorem C09_keep_write_iff : forall o n,
+  extendsb o n = true -> wf_env o = true -> wf_env n = true -> opt_init_unset o = true ->
+  forall v t key w x,
+    wt_val n key t v = true -> keepable n t v = true -> closed_ty o t = true ->
+    to_w n t v = Ok w -> from_wk o t w = KOk x ->
+    ((exists w', to_wk o t x = KOk w') <-> writable o t x = true).
+Proof. exact keep_write_iff. Qed.
+Print Assumptions C09_keep_write_iff.
+
+(* the round trip with decidable hypotheses only: keep_accepts o n so sn v = the object the old code
+   holds after reading what the new code wrote for v is writable.  (C09_keep_roundtrip_refuted is the
+   case keep_accepts = false: C09_keep_accepts_examples.) *)
+Theorem C09_keep_roundtrip_total : forall o n so sn v,
+  extendsb o n = true -> wf_env o = true -> wf_env n = true -> opt_init_unset o = true ->
+  find_struct o (s_name sn) = Some so -> find_struct n (s_name sn) = Some sn ->
+  wt n sn v = true -> keepable n (TRef (s_name sn)) v = true ->
+  keep_accepts o n so sn v = true ->
+  exists w x w', to_wire n sn v = Ok w /\ read_new_keep o so w = KOk x /\ to_wire_keep o so x = KOk w' /\
+                 read_new n sn w' = Ok (norm_struct n sn v).
+Proof. exact keep_roundtrip_total. Qed.
+Print Assumptions C09_keep_roundtrip_total.
+
+(* chains of any length, decidable hypotheses only, no assumption about any outcome *)
+Theorem C09_chain_total : forall o n so sn,
+  extendsb o n = true -> wf_env o = true -> wf_env n = true -> opt_init_unset o = true ->
+  find_struct o (s_name sn) = Some so -> find_struct n (s_name sn) = Some sn ->
+  forall k v, chain_dom_total o n so sn k v -> chain o n so sn k v = KOk (iter_norm n sn k v).
+Proof. exact chain_total. Qed.
+Print Assumptions C09_chain_total.
+
+Example C09_keep_accepts_examples :
+  keep_accepts ex_old ex_new ex_s ex_s ex_v = false /\
+  chain_dom_total ex2_old ex2_new ex2_so ex2_sn 3 ex2_v.
+Proof. exact keep_accepts_examples. Qed.
 
 (* Read of keep-aware code succeeds whenever plain Read does and the nesting stays within the limit
    (beyond it: C09_unknown_append_limit) *)
